@@ -132,6 +132,17 @@ static void m4(void) {
     VS_CHECK(aws_thread_join_all_managed() == AWS_OP_SUCCESS, "join-all-result", "join_all failed");
     check_managed_all(1);
 }
+/* M5: managed launch whose cpu pinning the kernel refuses: aws_thread_launch retries without pinning (added after a
+ * seeded change that counted the thread twice on that retry path was missed) */
+static void m5(void) {
+    setup();
+    struct aws_thread_options pinned = managed;
+    pinned.cpu_id = 1000; /* no such cpu: pthread_create fails with EINVAL, the library falls back to an unpinned launch */
+    if (aws_thread_launch(&thr[0], body, &targs[0], &pinned)) vs_fail("launch", "managed launch with an unusable cpu_id failed instead of falling back");
+    m_launch(1);
+    VS_CHECK(aws_thread_join_all_managed() == AWS_OP_SUCCESS, "join-all-result", "join_all failed");
+    check_managed_all(2);
+}
 /* J1: joinable thread with at-exit callbacks */
 static int j1_n = 2;
 static void j1(void) {
@@ -176,6 +187,7 @@ int main(int argc, char **argv) {
         {.name = "M2-three-managed", .run = m2, .bound_quick = 2, .bound_thorough = 3},
         {.name = "M3-managed-launches-managed", .run = m3, .bound_quick = 3, .bound_thorough = 4},
         {.name = "M4-join-all-while-running", .run = m4, .bound_quick = 3, .bound_thorough = 5},
+        {.name = "M5-managed-cpu-pinning-refused", .run = m5, .bound_quick = 2, .bound_thorough = 3},
         {.name = "J1-joinable-at-exit", .run = j1, .bound_quick = 3, .bound_thorough = 5},
         {.name = "J2-managed-at-exit-plus-joinable", .run = j2, .bound_quick = 3, .bound_thorough = 4},
     };
